@@ -1,9 +1,12 @@
 package props
 
 import (
-	"go/token"
 	"fmt"
+	"go/constant"
+	"go/token"
+	"go/types"
 	"regexp"
+	"strings"
 
 	"golang.org/x/tools/go/ssa"
 
@@ -19,8 +22,12 @@ func init() {
 			"(3) the step list is exactly [awaitDrain, awaitVolumeDetachment, awaitInstanceTermination] in that order and a later step never runs after a non-empty result or an error; " +
 			"(4) each step's 'proceed' return (empty result, nil error) is dominated by its documented condition: Drain returned nil (and min drain time), no pending attachments or grace period elapsed, NodeClaim nil or provider says NotFound; " +
 			"(5) Terminator.Drain returns nil only when no pod is waiting for eviction in any group; " +
-			"(6) lifecycle.finalize removes the NodeClaim finalizer only when (not Registered or no Nodes left) and (no provider id or provider Delete reports NotFound), with every other error edge failing closed.",
-		NotCovered: []string{"truthfulness of the provider's NotFound answers", "volume-attachment filtering semantics (which pods are drainable)", "behaviour between two API calls under crash (only the guards re-evaluated on the next reconcile are decided)"},
+			"(6) lifecycle.finalize removes the NodeClaim finalizer only when (not Registered or no Nodes left) and (no provider id or provider Delete reports NotFound), with every other error edge failing closed; " +
+			"(7) the emptiness convention of (2)/(3) from the steps' side: every return of a step whose error may be nil either carries a Result that cannot be empty (Requeue = true, or a RequeueAfter that is provably > 0: a positive constant, max with a positive operand, min / lo.Clamp whose bounds are all positive, also through a temporary or a private helper) or is itself guarded by the step's condition of (4) — a 'not yet' answer whose requeue is computed and may be zero is a 'proceed'; " +
+			"(8) the cordon: Terminator.Taint returns nil only when (the node already carried a taint for which Taint.MatchTaint(&taint) holds — same key and effect — or the requested taint was appended to node.Spec.Taints) and (the node equals the copy taken before the taint was added, or the patch succeeded).",
+		NotCovered: []string{"truthfulness of the provider's NotFound answers", "volume-attachment filtering semantics (which pods are drainable)", "behaviour between two API calls under crash (only the guards re-evaluated on the next reconcile are decided)",
+			"a requeue interval read from a package variable or produced by arithmetic other than max/min/Clamp over constants is reported as 'not provably non-zero' and has to be re-confirmed by hand (fails closed)",
+			"semantics of k8s.io/api Taint.MatchTaint itself; an existing-taint test written as a hand loop or spelled key==key && effect==effect instead of lo.Find / lo.ContainsBy with MatchTaint is reported (idiom has to be re-confirmed)"},
 		Rules:      c09Rules,
 	})
 }
@@ -42,6 +49,23 @@ func c09RulesBase(tier string) []Rule {
 	stepRes := `dyn:&local<\[3\]term\.terminationFunc>\[:\]\[.*\]\(utils/node\.NodeClaimForNode\(\$0\.kubeClient, \$2\)#0, \$2, \(\*term\.Controller\)\.nodeTerminationTime\(.*\)#0\)`
 	proceed := core.RetSpec{Index: -1, Want: "nilconst", Also: `^return zero, nil$`}
 	cpDel := `iface:\(cloudprovider\.CloudProvider\)\.Delete\(\$0\.cloudProvider, \$2\)`
+	// the documented "step satisfied" conditions of the three steps (shared by the proceed rows DOM3/4/5 and by RET1)
+	drainDone := gates(
+		G(`+^\(\*tor\.Terminator\)\.Drain\(\$0\.terminator, \$3, \$4\) == nil$`),
+		G(`+^\$2 == nil$`, `-^\(opkg/status\.ConditionSet\)\.Get\(\(\*apis/v1\.NodeClaim\)\.StatusConditions\(\$2, nil\), "Drained"\) == nil$`),
+		G(`+^\$2 == nil$`, `-^\(\*opkg/status\.Condition\)\.IsUnknown\(\(opkg/status\.ConditionSet\)\.Get\(.*, "Drained"\)\)$`,
+			`-^iface:\(k8s\.io/utils/clock\.PassiveClock\)\.Since\(\$0\.clock, \(opkg/status\.ConditionSet\)\.Get\(.*, "Drained"\)\.LastTransitionTime\.Time\) < 5000000000$`),
+	)
+	volumesDone := gates(
+		G(`+^\(\*term\.Controller\)\.pendingVolumeAttachments\(\$0, \$3\)#1 == nil$`),
+		G(`-^len\(\(\*term\.Controller\)\.pendingVolumeAttachments\(\$0, \$3\)#0\)>=1$`, `+^\(\*term\.Controller\)\.hasTerminationGracePeriodElapsed\(\$0, \$4\)$`),
+	)
+	instanceGone := gates(
+		G(`+^\$2 == nil$`, `+^cloudprovider\.IsNodeClaimNotFoundError\(`+cpDel+`\)$`),
+		G(`+^\$2 == nil$`, `+^cloudprovider\.IgnoreNodeClaimNotFoundError\(`+cpDel+`\) == nil$`),
+	)
+	const taint = "(*tor.Terminator).Taint"
+	taintStore := `^store \$2\.Spec\.Taints = append\(.*, &local<\[1\]corev1\.Taint>\[:\]\)$`
 	return []Rule{
 		// ---- who removes finalizers
 		WMC{ID: "C09.WMC1", Sink: `^call cr/controller/controllerutil\.RemoveFinalizer\(.*"karpenter\.sh/termination"\)`,
@@ -86,26 +110,45 @@ func c09RulesBase(tier string) []Rule {
 		)},
 
 		// ---- proceed returns of the three steps
-		MPT{ID: "C09.DOM3", Fn: "(*term.Controller).awaitDrain", Ret: proceed, Gates: gates(
-			G(`+^\(\*tor\.Terminator\)\.Drain\(\$0\.terminator, \$3, \$4\) == nil$`),
-			G(`+^\$2 == nil$`, `-^\(opkg/status\.ConditionSet\)\.Get\(\(\*apis/v1\.NodeClaim\)\.StatusConditions\(\$2, nil\), "Drained"\) == nil$`),
-			G(`+^\$2 == nil$`, `-^\(\*opkg/status\.Condition\)\.IsUnknown\(\(opkg/status\.ConditionSet\)\.Get\(.*, "Drained"\)\)$`,
-				`-^iface:\(k8s\.io/utils/clock\.PassiveClock\)\.Since\(\$0\.clock, \(opkg/status\.ConditionSet\)\.Get\(.*, "Drained"\)\.LastTransitionTime\.Time\) < 5000000000$`),
-		)},
+		MPT{ID: "C09.DOM3", Fn: "(*term.Controller).awaitDrain", Ret: proceed, Gates: drainDone},
 		DOM{ID: "C09.DOM3b", Fn: "(*term.Controller).awaitDrain", Sink: `^call \(opkg/status\.ConditionSet\)\.SetTrue\(.*, "Drained"\)`, Gates: gates(
 			G(`+^\(\*tor\.Terminator\)\.Drain\(\$0\.terminator, \$3, \$4\) == nil$`),
 		)},
-		MPT{ID: "C09.DOM4", Fn: "(*term.Controller).awaitVolumeDetachment", Ret: proceed, Min: 2, Gates: gates(
-			G(`+^\(\*term\.Controller\)\.pendingVolumeAttachments\(\$0, \$3\)#1 == nil$`),
-			G(`-^len\(\(\*term\.Controller\)\.pendingVolumeAttachments\(\$0, \$3\)#0\)>=1$`, `+^\(\*term\.Controller\)\.hasTerminationGracePeriodElapsed\(\$0, \$4\)$`),
-		)},
+		MPT{ID: "C09.DOM4", Fn: "(*term.Controller).awaitVolumeDetachment", Ret: proceed, Min: 2, Gates: volumesDone},
 		MPT{ID: "C09.DOM4b", Fn: "(*term.Controller).hasTerminationGracePeriodElapsed", Ret: core.RetTrue, Gates: gates(
 			G(`-^\$1 == nil$`),
 			G(`+^\(time\.Time\)\.After\(iface:\(k8s\.io/utils/clock\.PassiveClock\)\.Now\(\$0\.clock\), \$1\)$`),
 		)},
-		MPT{ID: "C09.DOM5", Fn: "(*term.Controller).awaitInstanceTermination", Ret: proceed, Min: 2, Gates: gates(
-			G(`+^\$2 == nil$`, `+^cloudprovider\.IsNodeClaimNotFoundError\(`+cpDel+`\)$`),
-			G(`+^\$2 == nil$`, `+^cloudprovider\.IgnoreNodeClaimNotFoundError\(`+cpDel+`\) == nil$`),
+		MPT{ID: "C09.DOM5", Fn: "(*term.Controller).awaitInstanceTermination", Ret: proceed, Min: 2, Gates: instanceGone},
+		// finalize reads (empty Result, nil error) as "step satisfied" (lo.IsEmpty, DOM1/NR1). The proceed rows above select the
+		// returns that are *spelled* `reconcile.Result{}, nil`; this row closes the convention from the other side: every
+		// return of a step whose error may be nil either carries a Result that cannot be empty (Requeue = true or a
+		// RequeueAfter that is provably > 0 — a constant, max(…, c), Clamp(…, c1, c2) with positive bounds) or is itself
+		// guarded by the step's "satisfied" condition. A computed requeue (deadline − now, clamped at 0) is neither.
+		core.Custom{ID: "C09.RET1", Kind: "MPT", Run: func(w *core.World, id string) []core.Result {
+			return c09StepRequeues(w, id, []c09Step{
+				{"(*term.Controller).awaitDrain", drainDone, 3},
+				{"(*term.Controller).awaitVolumeDetachment", volumesDone, 3},
+				{"(*term.Controller).awaitInstanceTermination", instanceGone, 3},
+			})
+		}},
+
+		// ---- the cordon: finalize relies on Taint(node, DisruptedNoScheduleTaint) == nil meaning "the node carries that taint
+		// (key AND effect) and the API server has it" (DOM1/DOM2 gate everything else on it)
+		MPT{ID: "C09.MPT2", Fn: taint, Ret: core.RetOK, Gates: gates(
+			// already there (the membership test over node.Spec.Taints; its predicate is decided by PROV3) | appended now
+			G(`+^lo\.Find\[corev1\.Taint\]\(\$2\.Spec\.Taints, closure:.*\)#1$`, `instr:`+taintStore),
+			// persisted, or nothing to persist (node unchanged relative to the copy taken on entry)
+			G(`+^\(k8s\.io/apimachinery/third_party/forked/golang/reflect\.Equalities\)\.DeepEqual\(apim/api/equality\.Semantic\.Equalities, (<\*corev1\.Node>\$2, <\*corev1\.Node>\(\*corev1\.Node\)\.DeepCopy\(\$2\)|<\*corev1\.Node>\(\*corev1\.Node\)\.DeepCopy\(\$2\), <\*corev1\.Node>\$2)\)$`,
+				`+^iface:\(cr/client\.Writer\)\.Patch\(\$0\.kubeClient, <\*corev1\.Node>\$2, .*\) == nil$`),
+		)},
+		// "already there" means a taint that matches the requested one by key and effect (Taint.MatchTaint), and the taint
+		// that is appended is the requested one: a node that carries karpenter.sh/disrupted with another effect is not cordoned
+		core.Custom{ID: "C09.PROV3", Kind: "PROV", Run: c09TaintMatch},
+		// the copy the node is compared against (and patched from) is taken before the taint is added: taken after, the
+		// node always equals it, nothing is patched and Taint still returns nil
+		DOM{ID: "C09.DOM9", Fn: taint, Sink: taintStore, Gates: gates(
+			G(`instr:^call \(\*corev1\.Node\)\.DeepCopy\(\$2\)$`),
 		)},
 		core.Custom{ID: "C09.PROV1", Kind: "PROV", Run: func(w *core.World, id string) []core.Result {
 			// pendingVolumeAttachments returns the *filtered* attachments of this node
@@ -350,4 +393,446 @@ func c09BypassBatchEmpty(w *core.World, id string) []core.Result {
 		out = append(out, core.OK(id, "MPT", construct, n, "drained ⇒ the force-delete batch was empty"))
 	}
 	return out
+}
+
+// ---------------------------------------------------------------------------
+// C09.RET1 — no step hands finalize an (empty Result, nil error) outside its "satisfied" condition
+
+type c09Step struct {
+	fn    string
+	gates []Gate // the step's documented "satisfied" condition
+	min   int    // returns whose error may be nil, confirmed by reading the code
+}
+
+// c09Frame binds the parameters of a private helper to the values of the call being looked into.
+type c09Frame struct {
+	args   map[*ssa.Parameter]ssa.Value
+	parent *c09Frame
+}
+
+func c09StepRequeues(w *core.World, id string, steps []c09Step) []core.Result {
+	var out []core.Result
+	for _, st := range steps {
+		fn := w.Fn(st.fn)
+		if fn == nil {
+			out = append(out, core.Anchor(id, "MPT", st.fn))
+			continue
+		}
+		construct := "MPT:" + st.fn + ":not-yet⇒requeue≠0"
+		sinks := w.ReturnSinks(fn, core.RetOK) // every return whose error is not certainly non-nil
+		if len(sinks) < st.min {
+			out = append(out, core.Bad(id, "MPT", construct, w.Pos(fn.Pos()), fmt.Sprintf("vacuous: %d return(s) of %s with a possibly nil error, %d confirmed by hand", len(sinks), st.fn, st.min)))
+			continue
+		}
+		requeues, proceeds, bad := 0, 0, 0
+		for _, s := range sinks {
+			v := c09SinkResult(s, 0)
+			if v == nil {
+				out = append(out, core.Bad(id, "MPT", construct, w.InstrPos(s.Ret), "return of "+st.fn+" has no reconcile.Result operand (idiom not recognised)"))
+				bad++
+				continue
+			}
+			ok, why := c09ResultNonEmpty(w, fn, v, nil, 0)
+			if ok {
+				requeues++
+				continue
+			}
+			// possibly empty: this is a "step satisfied" answer, whatever it is spelled like
+			var missing []string
+			for _, g := range st.gates {
+				if !w.RetGuarded(s, g) {
+					missing = append(missing, "{"+g.Text+"}")
+				}
+			}
+			if len(missing) == 0 {
+				proceeds++
+				continue
+			}
+			bad++
+			out = append(out, core.Bad(id, "MPT", construct, w.InstrPos(s.Ret),
+				fmt.Sprintf("%s can return a reconcile.Result that may be empty (%s) together with a nil error without having passed its 'step satisfied' condition %s: finalize reads (empty result, nil error) as 'step satisfied', runs the next step and removes the finalizer — a 'not yet' return must carry Requeue=true or a RequeueAfter that cannot be zero",
+					st.fn, why, strings.Join(missing, " ∧ ")), w.DominatingLits(s.Ret)...))
+		}
+		if bad == 0 {
+			out = append(out, core.OK(id, "MPT", construct, len(sinks), fmt.Sprintf("%d nil-error return(s): %d with a provably non-empty requeue, %d guarded by the step's condition", len(sinks), requeues, proceeds)))
+		}
+	}
+	return out
+}
+
+// c09SinkResult: result #idx at this return sink (the operand arriving over the sink's predecessor when both are phis of
+// the returning block).
+func c09SinkResult(s core.RetSink, idx int) ssa.Value {
+	v := core.ResolveRet(s.Ret, idx)
+	if phi, ok := v.(*ssa.Phi); ok && s.Pred != nil && phi.Block() == s.Ret.Block() {
+		for i, p := range phi.Block().Preds {
+			if p == s.Pred && i < len(phi.Edges) {
+				return phi.Edges[i]
+			}
+		}
+	}
+	return v
+}
+
+// c09ResultNonEmpty: the reconcile.Result value v certainly has Requeue == true or RequeueAfter > 0.
+func c09ResultNonEmpty(w *core.World, owner *ssa.Function, v ssa.Value, fr *c09Frame, depth int) (bool, string) {
+	if depth > 3 {
+		return false, "helper nesting too deep"
+	}
+	switch x := v.(type) {
+	case *ssa.Const:
+		return false, "the literal empty Result"
+	case *ssa.Parameter:
+		for f := fr; f != nil; f = f.parent {
+			if a, ok := f.args[x]; ok {
+				return c09ResultNonEmpty(w, owner, a, f.parent, depth)
+			}
+		}
+		return false, "a parameter"
+	case *ssa.Phi:
+		for _, e := range x.Edges {
+			if e == v {
+				continue
+			}
+			if ok, why := c09ResultNonEmpty(w, owner, e, fr, depth+1); !ok {
+				return false, why
+			}
+		}
+		return len(x.Edges) > 0, "empty phi"
+	case *ssa.UnOp:
+		if x.Op != token.MUL {
+			break
+		}
+		a, ok := x.X.(*ssa.Alloc)
+		if !ok {
+			break
+		}
+		return c09LocalResultNonEmpty(w, a, x, fr)
+	case *ssa.Call, *ssa.Extract:
+		// the Result is produced by a private helper: every return of the helper whose error may be nil must be non-empty
+		call, k := (*ssa.Call)(nil), 0
+		if ex, isEx := x.(*ssa.Extract); isEx {
+			call, _ = ex.Tuple.(*ssa.Call)
+			k = ex.Index
+		} else {
+			call = x.(*ssa.Call)
+		}
+		if call == nil {
+			break
+		}
+		h, args, ok := w.PrivateHelperCall(owner, call)
+		if !ok {
+			return false, "the result of `" + w.RenderD(call, 4) + "`, which is not a private helper that can be looked into"
+		}
+		nf := &c09Frame{args: map[*ssa.Parameter]ssa.Value{}, parent: fr}
+		for i, p := range h.Params {
+			nf.args[p] = args[i]
+		}
+		spec := core.RetAny
+		res := h.Signature.Results()
+		if res.Len() > 1 && res.At(res.Len()-1).Type().String() == "error" {
+			spec = core.RetOK
+		}
+		sinks := w.ReturnSinks(h, spec)
+		if len(sinks) == 0 {
+			return false, "helper " + core.FnName(h) + " never returns with a nil error"
+		}
+		for _, s := range sinks {
+			rv := c09SinkResult(s, k)
+			if rv == nil {
+				return false, "helper " + core.FnName(h) + ": return not recognised"
+			}
+			if ok, why := c09ResultNonEmpty(w, owner, rv, nf, depth+1); !ok {
+				return false, "helper " + core.FnName(h) + " @" + w.InstrPos(s.Ret) + ": " + why
+			}
+		}
+		return true, ""
+	}
+	return false, "`" + w.RenderD(v, 5) + "` is not a Result literal"
+}
+
+// c09LocalResultNonEmpty: `load` reads a local reconcile.Result that is only ever written field by field; one of
+// Requeue / RequeueAfter is written on every path to the load (a store dominates it) and every value ever stored to that
+// field is provably non-zero.
+func c09LocalResultNonEmpty(w *core.World, a *ssa.Alloc, load *ssa.UnOp, fr *c09Frame) (bool, string) {
+	stores := map[string][]*ssa.Store{}
+	if a.Referrers() == nil {
+		return false, "local Result without referrers"
+	}
+	for _, r := range *a.Referrers() {
+		switch x := r.(type) {
+		case *ssa.DebugRef:
+		case *ssa.UnOp:
+			if x.Op != token.MUL {
+				return false, "the local Result is used in a way that is not recognised"
+			}
+		case *ssa.FieldAddr:
+			name := core.FieldNameOf(x)
+			if x.Referrers() == nil {
+				continue
+			}
+			for _, fr2 := range *x.Referrers() {
+				st, isStore := fr2.(*ssa.Store)
+				if _, isDbg := fr2.(*ssa.DebugRef); isDbg {
+					continue
+				}
+				if ld, isLoad := fr2.(*ssa.UnOp); isLoad && ld.Op == token.MUL {
+					continue
+				}
+				if !isStore || st.Addr != ssa.Value(x) {
+					return false, "the address of field " + name + " of the local Result escapes"
+				}
+				stores[name] = append(stores[name], st)
+			}
+		default:
+			return false, "the local Result escapes or is overwritten as a whole (`" + clipStr(w.RenderInstr(r), 80) + "`)"
+		}
+	}
+	why := "no store to Requeue / RequeueAfter"
+	for _, f := range []string{"RequeueAfter", "Requeue"} {
+		sts := stores[f]
+		if len(sts) == 0 {
+			continue
+		}
+		dominated, allPos := false, true
+		for _, st := range sts {
+			if c09InstrDominates(st, load) {
+				dominated = true
+			}
+			if !c09Positive(w, st.Val, fr, 0) {
+				allPos = false
+				why = f + " = `" + w.RenderD(st.Val, 6) + "` is not provably non-zero"
+			}
+		}
+		if !dominated && allPos {
+			why = f + " is not set on every path to the return"
+		}
+		if dominated && allPos {
+			return true, ""
+		}
+	}
+	return false, why
+}
+
+func c09InstrDominates(a, b ssa.Instruction) bool {
+	if a.Block() == b.Block() {
+		for _, in := range a.Block().Instrs {
+			if in == a {
+				return true
+			}
+			if in == b {
+				return false
+			}
+		}
+		return false
+	}
+	return a.Block().Dominates(b.Block())
+}
+
+// c09Positive: the scalar v (bool or duration) is certainly true / > 0: a constant, a phi or conversion of such, a helper
+// parameter bound to such, builtin max with one such operand, builtin min / lo.Clamp bounds that are all such.
+func c09Positive(w *core.World, v ssa.Value, fr *c09Frame, depth int) bool {
+	if depth > 6 {
+		return false
+	}
+	switch x := v.(type) {
+	case *ssa.Const:
+		if x.Value == nil {
+			return false
+		}
+		switch x.Value.Kind() {
+		case constant.Bool:
+			return constant.BoolVal(x.Value)
+		case constant.Int, constant.Float:
+			return constant.Sign(x.Value) > 0
+		}
+		return false
+	case *ssa.Parameter:
+		for f := fr; f != nil; f = f.parent {
+			if a, ok := f.args[x]; ok {
+				return c09Positive(w, a, f.parent, depth+1)
+			}
+		}
+		return false
+	case *ssa.Phi:
+		for _, e := range x.Edges {
+			if e == v {
+				continue
+			}
+			if !c09Positive(w, e, fr, depth+1) {
+				return false
+			}
+		}
+		return len(x.Edges) > 0
+	case *ssa.ChangeType:
+		return c09Positive(w, x.X, fr, depth+1)
+	case *ssa.Convert:
+		// integer ↔ integer of the same size or wider (int64 → time.Duration): sign preserved
+		bf, okf := x.X.Type().Underlying().(*types.Basic)
+		bt, okt := x.Type().Underlying().(*types.Basic)
+		if okf && okt && bf.Info()&types.IsInteger != 0 && bt.Kind() == types.Int64 && bf.Info()&types.IsUnsigned == 0 {
+			return c09Positive(w, x.X, fr, depth+1)
+		}
+		return false
+	case *ssa.UnOp:
+		// a local that is stored exactly once (a temporary)
+		if x.Op == token.MUL {
+			if a, ok := x.X.(*ssa.Alloc); ok && a.Referrers() != nil {
+				var only *ssa.Store
+				for _, r := range *a.Referrers() {
+					switch y := r.(type) {
+					case *ssa.Store:
+						if y.Addr != ssa.Value(a) || only != nil {
+							return false
+						}
+						only = y
+					case *ssa.UnOp, *ssa.DebugRef:
+					default:
+						return false
+					}
+				}
+				return only != nil && c09InstrDominates(only, x) && c09Positive(w, only.Val, fr, depth+1)
+			}
+		}
+		return false
+	case *ssa.Call:
+		args := x.Call.Args
+		if bi, ok := x.Call.Value.(*ssa.Builtin); ok {
+			switch bi.Name() {
+			case "max":
+				for _, a := range args {
+					if c09Positive(w, a, fr, depth+1) {
+						return true
+					}
+				}
+				return false
+			case "min":
+				for _, a := range args {
+					if !c09Positive(w, a, fr, depth+1) {
+						return false
+					}
+				}
+				return len(args) > 0
+			}
+			return false
+		}
+		if strings.HasPrefix(w.CalleeName(x.Common()), "lo.Clamp[") && len(args) == 3 {
+			// Clamp(v, lo, hi) ∈ {lo, hi} ∪ [lo, hi]
+			return c09Positive(w, args[1], fr, depth+1) && c09Positive(w, args[2], fr, depth+1)
+		}
+		return false
+	}
+	return false
+}
+
+// ---------------------------------------------------------------------------
+// C09.PROV3 — what Terminator.Taint treats as "already tainted", and what it adds
+
+func c09TaintMatch(w *core.World, id string) []core.Result {
+	const fname = "(*tor.Terminator).Taint"
+	fn := w.Fn(fname)
+	if fn == nil {
+		return []core.Result{core.Anchor(id, "PROV", fname)}
+	}
+	construct := "PROV:" + fname + ":present⇔MatchTaint"
+	findRe := regexp.MustCompile(`^call lo\.Find\[corev1\.Taint\]\(\$2\.Spec\.Taints, `)
+	predRe := regexp.MustCompile(`^return \(\*corev1\.Taint\)\.MatchTaint\((\$0, \^*\$3|\^*\$3, \$0)\)$`)
+	storeRe := regexp.MustCompile(`^store \$2\.Spec\.Taints = append\(`)
+	var out []core.Result
+	tests, adds := 0, 0
+	w.WithHelpers(fn, func(f *ssa.Function, _ ssa.Instruction) {
+		// (a) every membership test over node.Spec.Taints (lo.Find's found flag / lo.ContainsBy / lo.SomeBy) asks for key AND effect
+		for _, s := range w.Sites(f, findRe, true) {
+			ci, ok := s.(ssa.CallInstruction)
+			if !ok {
+				continue
+			}
+			tests++
+			args := core.CallArgs(ci.Common())
+			var pred *ssa.Function
+			if len(args) >= 2 {
+				switch x := args[1].(type) {
+				case *ssa.MakeClosure:
+					pred, _ = x.Fn.(*ssa.Function)
+				case *ssa.Function:
+					pred = x
+				}
+			}
+			if pred == nil {
+				out = append(out, core.Bad(id, "PROV", construct, w.InstrPos(s), "the predicate of the existing-taint test in Taint cannot be resolved (idiom not recognised)"))
+				continue
+			}
+			rets := w.Sites(pred, regexp.MustCompile(`^return `), false)
+			if len(rets) == 0 {
+				out = append(out, core.Bad(id, "PROV", construct, w.Pos(pred.Pos()), "the predicate of the existing-taint test has no return (idiom not recognised)"))
+			}
+			for _, r := range rets {
+				if got := w.RenderInstr(r); !predRe.MatchString(got) {
+					out = append(out, core.Bad(id, "PROV", construct, w.InstrPos(r),
+						"Taint treats the node as already tainted when `"+clipStr(strings.TrimPrefix(got, "return "), 120)+"` holds for one of its taints; it must be Taint.MatchTaint(&taint) (same key AND effect): a taint with the same key but another effect does not cordon the node, yet Taint would return nil without adding NoSchedule"))
+				}
+			}
+		}
+		// (b) the taint appended to node.Spec.Taints is the requested one
+		for _, s := range w.Sites(f, storeRe, true) {
+			st, ok := s.(*ssa.Store)
+			if !ok {
+				continue
+			}
+			adds++
+			if el, ok := c09AppendedElem(st.Val); !ok {
+				out = append(out, core.Bad(id, "PROV", construct, w.InstrPos(s), "the value appended to node.Spec.Taints is not a single-element literal (idiom not recognised)"))
+			} else if got := w.Render(el); !regexp.MustCompile(`^\^*\$3$`).MatchString(got) {
+				out = append(out, core.Bad(id, "PROV", construct, w.InstrPos(s), "Taint appends `"+clipStr(got, 100)+"` to node.Spec.Taints instead of the taint it was asked to add"))
+			}
+		}
+	})
+	if tests < 1 {
+		out = append(out, core.Bad(id, "PROV", construct, w.Pos(fn.Pos()), "vacuous: no lo.Find / lo.ContainsBy over node.Spec.Taints in Taint (1 confirmed by hand) — the existing-taint test changed shape and has to be re-confirmed"))
+	}
+	if adds < 1 {
+		out = append(out, core.Bad(id, "PROV", construct, w.Pos(fn.Pos()), "vacuous: no `node.Spec.Taints = append(…, taint)` in Taint (1 confirmed by hand)"))
+	}
+	if len(out) == 0 {
+		out = append(out, core.OK(id, "PROV", construct, tests+adds, "already tainted ⇔ some taint MatchTaint(&taint); the taint appended is the one requested"))
+	}
+	return out
+}
+
+// c09AppendedElem: v is append(xs, e) with a single variadic element; returns e.
+func c09AppendedElem(v ssa.Value) (ssa.Value, bool) {
+	c, ok := v.(*ssa.Call)
+	if !ok || len(c.Call.Args) != 2 {
+		return nil, false
+	}
+	if bi, ok := c.Call.Value.(*ssa.Builtin); !ok || bi.Name() != "append" {
+		return nil, false
+	}
+	sl, ok := c.Call.Args[1].(*ssa.Slice)
+	if !ok {
+		return nil, false
+	}
+	a, ok := sl.X.(*ssa.Alloc)
+	if !ok || a.Referrers() == nil {
+		return nil, false
+	}
+	if arr, ok := a.Type().Underlying().(*types.Pointer).Elem().Underlying().(*types.Array); !ok || arr.Len() != 1 {
+		return nil, false
+	}
+	var el ssa.Value
+	for _, r := range *a.Referrers() {
+		ia, ok := r.(*ssa.IndexAddr)
+		if !ok || ia.Referrers() == nil {
+			continue
+		}
+		for _, r2 := range *ia.Referrers() {
+			if st, ok := r2.(*ssa.Store); ok && st.Addr == ssa.Value(ia) {
+				if el != nil {
+					return nil, false
+				}
+				el = st.Val
+			}
+		}
+	}
+	return el, el != nil
 }
